@@ -389,3 +389,118 @@ UNITS = [
     Scan("report-headlines", ["C03", "C02"], scan_report_headlines),
     Scan("error-messages", ["C03", "C01"], scan_error_messages),
 ]
+
+
+# ---------------------------------------------------------------------------------------------------------------
+# C04: the node of an ``Error(node, message)`` has to be the offending construct.  Which construct is "offending" is
+# not decidable syntactically; one robust symptom of a wrong node is: the node expression reads a for-loop variable
+# outside every loop that binds it (a leaked loop variable: it then refers to the last element of an earlier loop).
+
+def _plain_targets(t: ast.AST) -> List[str]:
+    if isinstance(t, ast.Name):
+        return [t.id]
+    if isinstance(t, (ast.Tuple, ast.List)):
+        out: List[str] = []
+        for e in t.elts:
+            out.extend(_plain_targets(e))
+        return out
+    if isinstance(t, ast.Starred):
+        return _plain_targets(t.value)
+    return []
+
+
+def _root_name(e: ast.AST) -> Optional[str]:
+    while isinstance(e, (ast.Attribute, ast.Subscript, ast.Call)):
+        e = e.value if not isinstance(e, ast.Call) else e.func
+    return e.id if isinstance(e, ast.Name) else None
+
+
+def scan_error_locations(loader: Any) -> List[Dict[str, Any]]:
+    res: List[Dict[str, Any]] = []
+    root = loader.repo / "aas_core_codegen"
+    for p in sorted(root.rglob("*.py")):
+        rel = str(p.relative_to(loader.repo))
+        try:
+            tree = ast.parse(p.read_text(encoding="utf-8"))
+        except SyntaxError:
+            continue
+        n_err = 0
+        for fn in ast.walk(tree):
+            if not isinstance(fn, ast.FunctionDef):
+                continue
+            fors = [n for n in ast.walk(fn) if isinstance(n, ast.For)]
+            bound_otherwise = {a.arg for a in fn.args.args + fn.args.kwonlyargs}
+            for n in ast.walk(fn):
+                if isinstance(n, (ast.Assign, ast.AnnAssign, ast.AugAssign)):
+                    for t in (n.targets if isinstance(n, ast.Assign) else [n.target]):
+                        bound_otherwise.update(_plain_targets(t))
+                elif isinstance(n, ast.With):
+                    for it in n.items:
+                        if it.optional_vars is not None:
+                            bound_otherwise.update(_plain_targets(it.optional_vars))
+                elif isinstance(n, ast.NamedExpr):
+                    bound_otherwise.update(_plain_targets(n.target))
+            for n in ast.walk(fn):
+                if not (isinstance(n, ast.Call) and isinstance(n.func, ast.Name) and n.func.id == "Error" and n.args):
+                    continue
+                r = _root_name(n.args[0])
+                if r is None or r in bound_otherwise:
+                    continue
+                loops = [f for f in fors if r in _plain_targets(f.target)]
+                if not loops:
+                    continue
+                n_err += 1
+                inside = any(any(n is y for y in ast.walk(f)) for f in loops)
+                res.append({"key": f"{rel}:{fn.name}:Error@{r}#{n_err}:location-bound-by-an-enclosing-loop", "ok": inside,
+                            "line": n.lineno, "func": rel,
+                            "desc": "the node of the error is read from a loop variable only inside a loop that binds it "
+                                    "(not a leaked variable of an earlier loop)",
+                            "detail": None if inside else f"line {n.lineno}: Error({ast.unparse(n.args[0])}, ...) reads "
+                                                          f"the variable {r!r} of a loop that has already ended"})
+    return res
+
+
+UNITS.append(Scan("error-locations", ["C04"], scan_error_locations))
+
+
+# ---------------------------------------------------------------------------------------------------------------
+# C19 at the call sites: a literal body emitted *without* its enclosing quotes is only correct for the quotes that
+# the caller then writes around it.  TypeScript: such bodies go between backticks (template literals for f-strings
+# and patterns) and need the backtick escaping; Python: the caller fixes the quoting it will write.
+
+def scan_literal_call_sites(loader: Any) -> List[Dict[str, Any]]:
+    res: List[Dict[str, Any]] = []
+    root = loader.repo / "aas_core_codegen"
+    for target, needed in (("typescript", "in_backticks"), ("python", "quoting")):
+        n_site = 0
+        for p in sorted((root / target).rglob("*.py")):
+            rel = str(p.relative_to(loader.repo))
+            try:
+                tree = ast.parse(p.read_text(encoding="utf-8"))
+            except SyntaxError:
+                continue
+            for n in ast.walk(tree):
+                if not (isinstance(n, ast.Call) and isinstance(n.func, (ast.Attribute, ast.Name))):
+                    continue
+                name = n.func.attr if isinstance(n.func, ast.Attribute) else n.func.id
+                if name != "string_literal":
+                    continue
+                kws = {kw.arg: kw.value for kw in n.keywords}
+                we = kws.get("without_enclosing")
+                if not (isinstance(we, ast.Constant) and we.value is True):
+                    continue
+                n_site += 1
+                val = kws.get(needed)
+                if needed == "in_backticks":
+                    ok = isinstance(val, ast.Constant) and val.value is True
+                else:
+                    ok = val is not None and not (isinstance(val, ast.Constant) and val.value is None)
+                res.append({"key": f"{rel}:string_literal#{n_site}:escaping-matches-the-enclosing-written-by-the-caller",
+                            "ok": ok, "line": n.lineno, "func": rel,
+                            "desc": f"a {target} literal body emitted without enclosing quotes is escaped for the "
+                                    f"quotes the caller writes around it ({needed} is given)",
+                            "detail": None if ok else f"line {n.lineno}: {ast.unparse(n)[:100]}"})
+    return res
+
+
+UNITS.append(Scan("literal-call-sites", ["C19"], scan_literal_call_sites))
